@@ -13,7 +13,7 @@ git -C /repo worktree add -q --detach "$SCR" HEAD || exit 2
 cleanup() { git -C /repo worktree remove --force "$SCR" 2>/dev/null; rm -rf "$SCR" "${VERIF_BUILD_ROOT:-$VERIF_DIR/.build}/alt-$(echo "$SCR" | md5sum | cut -c1-10)"; }
 trap cleanup EXIT
 if ! git -C "$SCR" apply "$PATCH"; then echo "RESULT $NAME patch-does-not-apply"; exit 2; fi
-TESTS="$(cd "$SCR" && CARGO_NET_OFFLINE=true cargo test --workspace --no-fail-fast --offline 2>&1 | grep -E '^test result' | head -3 | awk '{print $4"/"$6}' | tr '\n' ' ')"
+TESTS="$(cd "$SCR" && CARGO_NET_OFFLINE=true timeout 900 cargo test --workspace --no-fail-fast --offline 2>&1 | grep -E '^test result' | head -3 | awk '{print $4"/"$6}' | tr '\n' ' ')"
 OUT=""
 for c in "$@"; do
   VERIF_REPO="$SCR" "$VERIF_DIR/check" "$c" --tier "${MUT_TIER:-quick}" > "$SCR/.check-$c.log" 2>&1; code=$?
